@@ -7,6 +7,10 @@
 //       2 two mutual loops ticking together (A reads B's feedback, B reads A's), readers active
 //       3 self loop, producer writes on EVERY evaluation (re-ticks each smallest step until end_time)
 //       4 variant 0 wired inside a nested child graph (real finish_subgraph + single_nested_graph_node)
+//       5 passive-reader loop with an IDENTICAL ACTIVE TWIN on the same ports: mon = Twin(src, fb()) wired first,
+//         total = Twin(src, passive(fb())) second, fb(total) closes the loop         6 the same, total wired first
+//         (same definition, same ports; only the use-site passive marker differs: if the two were merged the passive loop
+//          would re-tick on every smallest step)
 //   symbolic : script emission times (first offset >= 0, then gaps >= 1 us: consecutive smallest steps and gaps),
 //              emitted values, the initial value, start time, window length
 //   oracle   : (reads)   at every evaluation of a reader the feedback port shows the last value written in an
@@ -34,10 +38,10 @@
 #define WMAX 6
 #endif
 #ifndef NVARIANT
-#define NVARIANT 5
+#define NVARIANT 7
 #endif
 #ifndef VARIANT_MASK
-#define VARIANT_MASK 0x1f
+#define VARIANT_MASK 0x7f
 #endif
 
 using namespace hk;
@@ -145,6 +149,34 @@ struct MutualTop {
         wire<ProdRec<1>>(w, b);
     }
 };
+// ---- twin variants: one definition, used once actively and once through passive(fb())
+struct Twin {
+    static constexpr auto name = "c08_twin";
+    static void eval(In<"src", TS<Int>, InputValidity::Unchecked> src, In<"fb", TS<Int>, InputValidity::Unchecked> fb, Out<TS<Int>> out) {
+        out.set((src.modified() ? src.value() : Int{0}) + (fb.valid() ? fb.value() : Int{0}) + 1);  // writes on EVERY evaluation
+    }
+};
+Tick g_mon[2 * MAXC]; int g_nmon = 0; bool g_mon_overflow = false;
+struct MonRec {
+    static constexpr auto name = "c08_mon_rec";
+    static void eval(In<"a", TS<Int>> a, DateTime now) {
+        if (g_nmon < 2 * MAXC) g_mon[g_nmon++] = Tick{now, a.value()}; else g_mon_overflow = true;
+    }
+};
+template <bool TOTAL_FIRST> struct TwinTop {
+    static constexpr auto name = "c08_twin_top";
+    static void compose(Wiring &w) {
+        auto s = wire<Src>(w);
+        auto fb = make_fb<TS<Int>>(w);
+        Port<TS<Int>> mon, total;
+        if (TOTAL_FIRST) { total = wire<Twin>(w, s, passive(fb())); mon = wire<Twin>(w, s, fb()); }
+        else { mon = wire<Twin>(w, s, fb()); total = wire<Twin>(w, s, passive(fb())); }
+        fb(total);
+        wire<ReadRec<0>>(w, fb());
+        wire<ProdRec<0>>(w, total);
+        wire<MonRec>(w, mon);
+    }
+};
 struct NestedBody {
     static constexpr auto name = "c08_nested_body";
     static Port<TS<Int>> compose(Wiring &w, Port<TS<Int>> s) { return self_loop<InputActivity::Active, false>(w, s); }
@@ -185,9 +217,93 @@ extern "C" int harness_main() {
                       : variant == 1 ? build_graph<SelfTop<InputActivity::Passive, false>>()
                       : variant == 2 ? build_graph<MutualTop>()
                       : variant == 3 ? build_graph<SelfTop<InputActivity::Active, true>>()
-                                     : build_graph<NestedTop>();
+                      : variant == 4 ? build_graph<NestedTop>()
+                      : variant == 5 ? build_graph<TwinTop<false>>()
+                                     : build_graph<TwinTop<true>>();
     run_sim(std::move(gb), g_start, g_end, &obs);
 
+    if (variant >= 5) {
+        // ---- twin oracle.  total (passive on fb) ticks exactly at the script ticks; value_j = V_j + (previous total or the
+        // initial value or nothing) + 1.  The reader port shows [init@start] ++ totals shifted by MIN_TD.  mon (active twin)
+        // ticks at script ticks, at deliveries and at the initial emission.  Cycles = {start} u ticks u deliveries: QUIET after.
+        const LoopLog &L = g_loop[0];
+        verif_assert(!L.overflow && !g_mon_overflow && !g_log.overflow, "C08.log_overflow");
+        bool ok_total = true, ok_rd = true, ok_mon = true, ok_cyc = true;
+        Int expect_total[NEMIT];
+        Int n_in = 0;
+        {
+            Int prevv = g_has_init ? g_init : Int{0};
+            for (int j = 0; j < NEMIT; j++) {
+                expect_total[j] = g_V[j] + prevv + 1;
+                prevv = expect_total[j];
+                n_in += (g_T[j] < g_end) ? 1 : 0;
+                if (j < L.nprod) ok_total &= (L.prod[j].t == g_T[j]) & (L.prod[j].v == expect_total[j]);
+            }
+            ok_total &= (Int{L.nprod} == n_in);  // a re-ticking (merged) loop writes far more often
+        }
+        {
+            int k = 0;
+            Int n_del = 0;
+            if (g_has_init) { ok_rd &= (L.nrd >= 1); if (L.nrd >= 1) ok_rd &= (L.rd[0].t == g_start) & (L.rd[0].v == g_init); k = 1; }
+            for (int j = 0; j < NEMIT; j++) {
+                n_del += (g_T[j] + MIN_TD < g_end) ? 1 : 0;
+                if (k < L.nrd) { ok_rd &= (L.rd[k].t == g_T[j] + MIN_TD) & (L.rd[k].v == expect_total[j]); k++; }
+            }
+            ok_rd &= (Int{L.nrd} == n_del + (g_has_init ? 1 : 0));
+        }
+        {
+            // candidate times of mon: script ticks, deliveries, initial emission
+            DateTime cand[2 * NEMIT + 1];
+            int nc = 0;
+            for (int j = 0; j < NEMIT; j++) { cand[nc++] = g_T[j]; cand[nc++] = g_T[j] + MIN_TD; }
+            if (g_has_init) cand[nc++] = g_start;
+            DateTime prev = MIN_DT;
+            for (int i = 0; i < g_nmon; i++) {
+                DateTime t = g_mon[i].t;
+                bool is_cand = false;
+                for (int c = 0; c < nc; c++) is_cand |= (cand[c] == t);
+                Int srcpart = 0, fbpart = g_has_init ? g_init : Int{0};
+                for (int j = 0; j < NEMIT; j++) {
+                    srcpart = (g_T[j] == t) ? g_V[j] : srcpart;
+                    fbpart = (g_T[j] + MIN_TD <= t) ? expect_total[j] : fbpart;
+                }
+                ok_mon &= is_cand & (t > prev) & (g_mon[i].v == srcpart + fbpart + 1);
+                prev = t;
+            }
+            Int expected = 0;
+            for (int c = 0; c < nc; c++) {
+                bool dup = false, found = false;
+                for (int c2 = 0; c2 < c; c2++) dup |= (cand[c2] == cand[c]);
+                for (int i = 0; i < g_nmon; i++) found |= (g_mon[i].t == cand[c]);
+                ok_mon &= found | (cand[c] >= g_end);
+                expected += ((cand[c] < g_end) & !dup) ? 1 : 0;
+            }
+            ok_mon &= (Int{g_nmon} == expected);
+            // cycles
+            Int exp_cyc = 0;
+            DateTime cc[2 * NEMIT + 1];
+            int ncc = 0;
+            cc[ncc++] = g_start;
+            for (int j = 0; j < NEMIT; j++) { cc[ncc++] = g_T[j]; cc[ncc++] = g_T[j] + MIN_TD; }
+            for (int c = 0; c < ncc; c++) {
+                bool dup = false;
+                for (int c2 = 0; c2 < c; c2++) dup |= (cc[c2] == cc[c]);
+                exp_cyc += ((cc[c] < g_end) & !dup) ? 1 : 0;
+            }
+            int cycles = 0;
+            for (int i = 0; i < g_log.n; i++) cycles += (g_log.ev[i].kind == EV_GRAPH_BEGIN && g_log.ev[i].depth == 0);
+            ok_cyc &= (Int{cycles} == exp_cyc);
+            verif_log("cycles", cycles);
+            if (cycles >= 2) verif_reach("passive_loop_with_active_twin");
+        }
+        verif_assert(ok_total, "C08.twin_passive_loop_writes_only_on_source_ticks");
+        verif_assert(ok_rd, "C08.twin_reader_stream_is_producer_stream_shifted_by_one_step");
+        verif_assert(ok_mon, "C08.twin_active_monitor_ticks_on_source_and_delivery");
+        verif_assert(ok_cyc, "C08.twin_passive_loop_goes_quiet");
+        if (g_has_init) verif_reach("with_initial"); else verif_reach("without_initial");
+        verif_reach("end");
+        return 0;
+    }
     const int nloops = variant == 2 ? 2 : 1;
 #ifdef C08_DEBUG
     for (int id = 0; id < nloops; id++) {
